@@ -65,7 +65,7 @@ def run(tier, seed):
         c.leanchecker(["ZeepVerif.Props.C12"])
     model_ok, model_err = c.lake_build(["zvdrv"])
     root = g.scratch(f"C12-{tier}-{seed}")
-    cases = st.repo_corpus_cases(root, large=(tier == "thorough")) + name_cases(root)
+    cases = st.repo_corpus_cases(root, large=(tier == "thorough")) + st.verif_corpus_cases(root) + name_cases(root)
     for profile, nq, nt in (("genwsdl", 30, 500), ("genwsdlmulti", 20, 300), ("gencyc", 25, 400), ("genwsdlcollide", 10, 100)):
         n = nq if tier == "quick" else nt
         if not proved:
